@@ -245,3 +245,147 @@ func verifHarness_C03_sysSchedules() {
 	r.assertC03(c.start, true)
 	vReach()
 }
+
+// ---------- several partitions sharing a broker ----------
+
+// a Client whose leader lookup for one partition fails a number of times (leader election)
+type vFlakyLeaderClient struct {
+	vFakeClient
+	flakyPart int32
+	failures  int
+}
+
+func (c *vFlakyLeaderClient) Leader(topic string, p int32) (*Broker, error) {
+	if p == c.flakyPart && c.failures > 0 {
+		c.failures--
+		return nil, ErrLeaderNotAvailable
+	}
+	return c.vFakeClient.Leader(topic, p)
+}
+
+// verifHarness_C03_sysTwoPartitions: partitions 0 and 1 are led by the same broker and read by
+// one Consumer. Partition 1 meets per-partition fetch errors (redispatch class / reported) and
+// its leader lookup then fails 0..2 times before it succeeds; partition 0 is never at fault.
+// Both partitions deliver their whole log in order, each record once: trouble of a neighbour
+// neither stalls nor disturbs a partition whose leader is reachable.
+func verifHarness_C03_sysTwoPartitions() {
+	delay := 0
+	if vTier() > 0 {
+		delay = 1
+	}
+	vConfig("delay", delay)
+	vConfig("ticks", 8)
+	conf := NewConfig()
+	conf.ChannelBufferSize = vChoose("chanBuf", 2)
+	conf.Consumer.Return.Errors = true
+	conf.Consumer.Retry.Backoff = 0
+	conf.Consumer.MaxProcessingTime = 100 * time.Millisecond
+	conf.Version = V0_11_0_0
+	cl := vNewCluster(conf, 1, 2, 2)
+	cl.perFetch = 1
+	var logs [2][]vRec
+	id := byte(1)
+	for p := int32(0); p < 2; p++ {
+		off := int64(0)
+		for b := 0; b < 2; b++ {
+			batch := &RecordBatch{Version: 2, FirstOffset: off, LastOffsetDelta: 1, ProducerID: -1, FirstTimestamp: time.Unix(1600000000, 0)}
+			for i := 0; i < 2; i++ {
+				batch.Records = append(batch.Records, &Record{OffsetDelta: int64(i), Key: []byte{id}, Value: []byte{id}})
+				logs[p] = append(logs[p], vRec{off: off, id: id, batch: b})
+				off++
+				id++
+			}
+			cl.clog[p] = append(cl.clog[p], batch)
+		}
+		cl.clogEnd[p] = off
+		cl.logs[p] = make([]vLogEntry, int(off))
+	}
+	client := &vFlakyLeaderClient{vFakeClient: vFakeClient{conf: conf, cl: cl}, flakyPart: 1}
+	lookupFailures := vChoose("leaderLookupFailures", 3)
+	faultKinds := ""
+	vOverride("(*Broker).Fetch", func(b *Broker, req *FetchRequest) (*FetchResponse, error) {
+		cl.fetches++
+		vYield()
+		resp := &FetchResponse{Blocks: map[string]map[int32]*FetchResponseBlock{"t": {}}, Version: req.Version}
+		pending := false
+		for p, rb := range req.blocks["t"] {
+			if rb.fetchOffset < cl.clogEnd[p] {
+				pending = true
+			}
+		}
+		if !pending {
+			<-time.After(conf.Consumer.MaxWaitTime)
+		}
+		for p := int32(0); p < 2; p++ {
+			rb, ok := req.blocks["t"][p]
+			if !ok {
+				continue
+			}
+			blk := &FetchResponseBlock{HighWaterMarkOffset: cl.clogEnd[p], PreferredReadReplica: -1}
+			kind := 0
+			if p == 1 && cl.faultsLeft > 0 {
+				kind = vChoose("neighbourFault", 3)
+			}
+			switch kind {
+			case 1:
+				cl.faultsLeft--
+				faultKinds += "R"
+				blk.Err = ErrNotLeaderForPartition
+				client.failures = lookupFailures
+			case 2:
+				cl.faultsLeft--
+				faultKinds += "E"
+				blk.Err = ErrUnknown
+				client.failures = lookupFailures
+			default:
+				for _, batch := range cl.clog[p] {
+					if batch.LastOffset() >= rb.fetchOffset && len(blk.RecordsSet) < cl.perFetch {
+						rs := newDefaultRecords(batch)
+						blk.RecordsSet = append(blk.RecordsSet, &rs)
+					}
+				}
+			}
+			resp.Blocks["t"][p] = blk
+		}
+		return resp, nil
+	})
+	vOverride("(*Broker).Close", func(b *Broker) error { return nil })
+	ci, err := newConsumer(client)
+	vAssume(err == nil)
+	var got [2][]*ConsumerMessage
+	done := make(chan int32, 2)
+	for p := int32(0); p < 2; p++ {
+		pci, err := ci.ConsumePartition("t", p, 0)
+		vAssume(err == nil)
+		pc := pci.(*partitionConsumer)
+		p := p
+		go func() {
+			for range pc.Errors() {
+			}
+		}()
+		go func() {
+			for m := range pc.Messages() {
+				got[p] = append(got[p], m)
+				if len(got[p]) == len(logs[p]) {
+					pc.AsyncClose()
+				}
+			}
+			done <- p
+		}()
+	}
+	<-done
+	<-done
+	vClass(vSprintf("faults=%s,lookupFailures=%d", faultKinds, lookupFailures))
+	for p := 0; p < 2; p++ {
+		vAssert(len(got[p]) == len(logs[p]), "whole-log-delivered-on-both-partitions")
+		for k, m := range got[p] {
+			if k < len(logs[p]) {
+				vAssert(m.Offset == logs[p][k].off, "in-order-each-once")
+				vAssert(len(m.Key) == 1 && m.Key[0] == logs[p][k].id, "unaltered")
+			}
+		}
+	}
+	vAssert(ci.Close() == nil, "consumer-close")
+	vCover("neighbour-redispatched-with-failed-lookup", len(faultKinds) > 0 && lookupFailures > 0)
+	vReach()
+}
